@@ -83,3 +83,14 @@ func probeTrace(job string) {
 	}
 	fmt.Println("steps", r.Steps, "violation", r.Violation)
 }
+
+func probeRawTrace(job string) {
+	r := RunRaw(ParseRawCfg(job), nil)
+	for i, t := range r.Trace {
+		fmt.Println(i, t)
+		if i > 150 {
+			break
+		}
+	}
+	fmt.Println("steps", r.Steps, "violation", r.Violation)
+}
